@@ -57,6 +57,9 @@ impl Thread {
 pub struct Scope<'scope, 'env: 'scope> {
     num_running_threads: AtomicUsize,
     main_task: TaskId,
+    /// Set once the main task has blocked at the end of `scope` to wait for the scoped threads. Until then the main
+    /// task may be blocked for an unrelated reason (e.g. joining some thread) and must not be unblocked by us.
+    main_waiting: AtomicBool,
     scope: PhantomData<&'scope mut &'scope ()>,
     env: PhantomData<&'env mut &'env ()>,
 }
@@ -96,7 +99,9 @@ impl<'scope> Scope<'scope, '_> {
 
                 finished.store(true, Ordering::Relaxed);
 
-                if self.num_running_threads.fetch_sub(1, Ordering::Relaxed) == 1 {
+                if self.num_running_threads.fetch_sub(1, Ordering::Relaxed) == 1
+                    && self.main_waiting.load(Ordering::Relaxed)
+                {
                     ExecutionState::with(|s| s.get_mut(self.main_task).unblock());
                 }
 
@@ -128,6 +133,7 @@ where
     let scope = Scope {
         num_running_threads: AtomicUsize::new(0),
         main_task: ExecutionState::with(|s| s.current().id()),
+        main_waiting: AtomicBool::new(false),
         env: PhantomData,
         scope: PhantomData,
     };
@@ -136,6 +142,7 @@ where
 
     if scope.num_running_threads.load(Ordering::Relaxed) != 0 {
         tracing::info!("thread blocked, waiting for completion of scoped threads");
+        scope.main_waiting.store(true, Ordering::Relaxed);
         ExecutionState::with(|s| s.current_mut().block(false));
         thread::switch();
     }
